@@ -1117,6 +1117,22 @@ pub fn run(rec: &mut Recorder, cases_path: &str, thorough: bool, seed: u64, kind
         for _ in 0..300 {
             pairs.push((rng.bytes(33), rng.bytes(33)));
         }
+        // differences that cancel under XOR / sum folds: the same mask at two positions, swapped bytes
+        for k in 0..120usize {
+            let a = rng.bytes(33);
+            let (i, j) = (k % 33, (k * 7 + 5) % 33);
+            if i == j {
+                continue;
+            }
+            let mut b = a.clone();
+            let mask = 1u8 << (k % 8);
+            b[i] ^= mask;
+            b[j] ^= mask;
+            pairs.push((a.clone(), b));
+            let mut c = a.clone();
+            c.swap(i, j);
+            pairs.push((a, c));
+        }
         for (a, b) in pairs {
             let (ka, kb) = (mk(&a), mk(&b));
             let c = match ka.cmp(&kb) {
